@@ -559,6 +559,32 @@ func checkC01(res *Result) {
 							}
 						}
 					}
+					// named results: `value = this.unknown` in the final else / at top level, then a bare return
+					if as, ok := n.(*ast.AssignStmt); ok && len(as.Lhs) == 1 && len(as.Rhs) == 1 && serFd.Type.Results != nil && len(serFd.Type.Results.List) >= 1 && len(serFd.Type.Results.List[0].Names) >= 1 {
+						if fv := thisField(info, as.Rhs[0]); fv != nil && fv.Name() == "unknown" {
+							if id, ok := as.Lhs[0].(*ast.Ident); ok && info.ObjectOf(id) == info.ObjectOf(serFd.Type.Results.List[0].Names[0]) {
+								under := false
+								for i := len(stack) - 1; i >= 0; i-- {
+									switch par := stack[i].(type) {
+									case *ast.CaseClause:
+										if par.List != nil {
+											under = true
+										}
+									case *ast.IfStmt:
+										if i+1 < len(stack) && stack[i+1] == ast.Node(par.Body) {
+											under = true
+										}
+									case *ast.ForStmt, *ast.RangeStmt:
+										under = true
+									}
+								}
+								last, _ := serFd.Body.List[len(serFd.Body.List)-1].(*ast.ReturnStmt)
+								if !under && last != nil && len(last.Results) == 0 {
+									okU = true
+								}
+							}
+						}
+					}
 					stack = append(stack, n)
 					return true
 				})
@@ -726,6 +752,20 @@ func checkC01(res *Result) {
 										if ix, ok := r.Results[0].(*ast.IndexExpr); ok {
 											if z, ok := ix.Index.(*ast.BasicLit); ok && z.Value == "0" {
 												okOne = true
+											}
+										}
+									}
+								}
+								// named results: `out = s[0]; return`
+								if l, ok := be.Y.(*ast.BasicLit); ok && l.Value == "1" && len(ifs.Body.List) == 2 && sfd.Type.Results != nil && len(sfd.Type.Results.List) >= 1 && len(sfd.Type.Results.List[0].Names) >= 1 {
+									as, ok1 := ifs.Body.List[0].(*ast.AssignStmt)
+									r, ok2 := ifs.Body.List[1].(*ast.ReturnStmt)
+									if ok1 && ok2 && len(r.Results) == 0 && len(as.Lhs) == 1 && len(as.Rhs) == 1 {
+										if id, ok := as.Lhs[0].(*ast.Ident); ok && info.ObjectOf(id) == info.ObjectOf(sfd.Type.Results.List[0].Names[0]) {
+											if ix, ok := as.Rhs[0].(*ast.IndexExpr); ok {
+												if z, ok := ix.Index.(*ast.BasicLit); ok && z.Value == "0" {
+													okOne = true
+												}
 											}
 										}
 									}
